@@ -184,6 +184,9 @@ func (d *ubjDec) key() int {
 	if n > len(d.in)-d.pos {
 		return Truncated
 	}
+	if n == 0 {
+		d.h.Tag("ubjson.key.empty")
+	}
 	d.out = append(d.out, ev.Event{K: ev.Key, Str: clone(d.in[d.pos : d.pos+n])})
 	d.pos += n
 	return OK
